@@ -120,3 +120,47 @@ fn ceiling_concurrent_clones() {
         assert_eq!(drops.load(Ordering::SeqCst), 3);    // the payload and the two private copies
     });
 }
+
+/// C07 under contention: clones made while another thread clones (or drops) the same value, away from the ceiling, must all
+/// SHARE the owner -- a failed compare-exchange is a retry, never a reason to fall back to a private copy
+#[test]
+fn sharing_concurrent_clones() {
+    model(|| {
+        let (a, drops) = mk();
+        let addr = a.verif_addr();
+        let a = std::sync::Arc::new(SendSync(a));
+        let a2 = a.clone();
+        let t = thread::spawn(move || { let c = SendS(a2.0.clone()); let same = c.0.verif_addr() == a2.0.verif_addr(); drop(c); drop(a2); same });
+        let c = a.0.clone();
+        assert!(c.verif_addr() == addr, "a clone made while another thread was cloning does not share the buffer (it was copied)");
+        let d = c.clone();
+        assert!(d.verif_addr() == addr, "a clone made while another thread was dropping its clone does not share the buffer");
+        drop(d); drop(c);
+        assert!(t.join().unwrap(), "the other thread's clone does not share the buffer (it was copied)");
+        drop(a);
+        assert_eq!(drops.load(Ordering::SeqCst), 1);     // one payload only: no private copy was ever made
+    });
+}
+
+/// C02 under threads: after two threads cloned a sole owner concurrently and one clone is gone, the other clone still counts:
+/// no in-place mutable access and no ownership of the buffer for the original while it lives
+#[test]
+fn exclusive_after_concurrent_clones() {
+    model(|| {
+        let (a, drops) = mk();
+        let a = std::sync::Arc::new(SendSync(a));
+        let a2 = a.clone();
+        let t = thread::spawn(move || { let c = SendS(a2.0.clone()); drop(a2); c });
+        let c = a.0.clone();
+        drop(c);
+        let kept = t.join().unwrap();
+        let mut a = std::sync::Arc::try_unwrap(a).ok().expect("the other thread released its reference").0;
+        assert!(!a.is_unique(), "reported unique while a clone made on another thread is alive");
+        assert!(a.as_mut().is_none(), "mutable access granted while a clone made on another thread is alive");
+        assert_eq!(kept.0.as_ref().read(), 7);
+        drop(kept);
+        assert!(a.as_mut().is_some());
+        drop(a);
+        assert_eq!(drops.load(Ordering::SeqCst), 1);
+    });
+}
